@@ -506,12 +506,16 @@ def run_real(fix, items):
         except Exception:           # what the CL adaptor would see
             esc = True
         new = {}
+        sids = []
         for s in fix.idle():
             if s.sid not in before:
                 k = fix.kind(s)
                 new[k] = new.get(k, 0) + 1
+                sids.append(s.sid)
         return {'delivered': [list(i) for i in fix.delivered[ndel:]], 'tx': [c.hex() for c in fix.cap[ncap:]],
-                'new': new, 'escaped': esc or len(loop.escaped) > nesc}
+                'new': new, 'escaped': esc or len(loop.escaped) > nesc, '_new_sids': sids}
+
+    owner = {}      # idle source id -> index of the item whose processing registered it
 
     for ix, it in enumerate(items):
         CLOCK.now_ms = it['now']
@@ -525,20 +529,28 @@ def run_real(fix, items):
         ev.update(it.get('params', {}))
         events.append(ev)
         obs.append(o)
-        # drain
+        for sid in o.pop('_new_sids'):
+            owner[sid] = ix
+        if it.get('hold'):
+            # back-to-back arrival: the next bundle is received before the main loop goes idle
+            continue
+        # drain: FIFO; every source is attributed to the bundle whose processing registered it
         guard = 0
-        while fix.idle() and guard < 200:
+        while fix.idle() and guard < 2000:
             guard += 1
             src = fix.idle()[0]
             kind = fix.kind(src)
             CLOCK.now_ms = it['now'] + it.get('dwell', 0)
             args = src.args
+            own = owner.get(src.sid, ix)
             o = fire_window(lambda: loop.fire(src))
-            o['item'] = ix
+            o['item'] = own
+            for sid in o.pop('_new_sids'):
+                owner[sid] = own
             if kind == 'fwd':
                 o['k'] = 'fwd'
                 whole = [t for t in o['tx']]
-                sp = {'tx_bits': fix.tx_bits(dest), 'cl_ok': True, 'frag': 'none',
+                sp = {'tx_bits': fix.tx_bits(eid_text(items[own]['b']['pri']['dest'])), 'cl_ok': True, 'frag': 'none',
                       'crcs': crcs_of(bytes.fromhex(whole[0])) if whole else []}
                 events.append({'k': 'fwd', 'now': CLOCK.now_ms, 'sp': sp})
                 obs.append(o)
@@ -552,7 +564,7 @@ def run_real(fix, items):
                 if is_frag:
                     # fragment of a forwarded bundle: opaque to the model
                     for back in reversed(obs):
-                        if back['k'] == 'fwd':
+                        if back['k'] == 'fwd' and back['item'] == own:
                             back.setdefault('frag_tx', []).extend(o['tx'])
                             break
                     continue
@@ -569,7 +581,7 @@ def run_real(fix, items):
             elif kind == 'reasm':
                 o['k'] = 'recv'
                 o['reasm'] = True
-                rb = it.get('reasm_b')
+                rb = items[own].get('reasm_b')
                 if rb is None:
                     o['k'] = 'opaque'
                     obs.append(o)
